@@ -27,6 +27,7 @@ func init() {
 		Assumptions: []string{"that the structure R7 decides implements the x86-64 recursive-mapping scheme is the standard argument and is not mechanised; 'other pages unchanged' is not decided"},
 		Controls: []Control{
 			{Name: "a page of an identity region skipped", File: "kernel/mm/vmm/map.go", Old: "\tfor curPage := startPage; curPage < startPage+pageCount; curPage++ {\n\t\tif err := mapFn(curPage, mm.Frame(curPage), flags); err != nil {", New: "\tfor curPage := startPage; curPage < startPage+pageCount; curPage++ {\n\t\tif flags == 0 && curPage > startPage {\n\t\t\tcontinue\n\t\t}\n\t\tif err := mapFn(curPage, mm.Frame(curPage), flags); err != nil {", Expect: "C04.R6 region-helper mm/vmm.IdentityMapRegion"},
+			{Name: "identity region with an inclusive last page (seed C07-13)", File: "kernel/mm/vmm/map.go", Old: "\tpageCount := mm.Page(((size + (mm.PageSize - 1)) & ^(mm.PageSize - 1)) >> mm.PageShift)\n\n\tfor curPage := startPage; curPage < startPage+pageCount; curPage++ {\n\t\tif err := mapFn(curPage, mm.Frame(curPage), flags); err != nil {", New: "\tlastPage := mm.PageFromAddress(startFrame.Address() + size - 1)\n\n\tfor curPage := startPage; curPage <= lastPage; curPage++ {\n\t\tif err := mapFn(curPage, mm.Frame(curPage), flags); err != nil {", Expect: "C04.R6 region-helper mm/vmm.IdentityMapRegion"},
 			{Name: "identity page count as last page index plus one", File: "kernel/mm/vmm/map.go", Old: "\tpageCount := mm.Page(((size + (mm.PageSize - 1)) & ^(mm.PageSize - 1)) >> mm.PageShift)\n", New: "\tpageCount := mm.Page((size-1)>>mm.PageShift) + 1\n", Expect: "C04.R6"},
 			{Name: "delete *pte = 0 at the leaf", File: "kernel/mm/vmm/map.go", Old: "\t\t\t*pte = 0\n\t\t\tpte.SetFrame(frame)\n", New: "\t\t\tpte.SetFrame(frame)\n", Expect: "C04.R1"},
 			{Name: "delete the flush in Unmap", File: "kernel/mm/vmm/map.go", Old: "\t\t\tpte.ClearFlags(FlagPresent)\n\t\t\tflushTLBEntryFn(page.Address())\n", New: "\t\t\tpte.ClearFlags(FlagPresent)\n", Expect: "C04.R2"},
@@ -775,6 +776,13 @@ func (x *c04) regionRule(rule string, names []string) {
 						bad = "the page count is computed with the unsigned subtraction `" + sub.String() + "` that is not guarded against wrap-around: a zero (or too small) size maps an enormous number of pages"
 					}
 				}
+				// (an inclusive bound `page <= last` has no value that equals the count:
+				// the operands of the exit test are looked at instead)
+				for _, tv := range lf.exitOperands(g) {
+					if sub := unguardedSub(g, tv, 0); sub != nil {
+						bad = "the bound of the page loop is computed with the unsigned subtraction `" + sub.String() + "` that is not guarded against wrap-around: a zero (or too small) size maps an enormous number of pages"
+					}
+				}
 			}
 			lf.Done()
 		}
@@ -838,6 +846,19 @@ func unguardedSub(g *IG, v ssa.Value, depth int) *ssa.BinOp {
 		return unguardedSub(g, x.X, depth+1)
 	case *ssa.ChangeType:
 		return unguardedSub(g, x.X, depth+1)
+	case *ssa.Call:
+		// a call of a function of the program is transparent: its result is
+		// computed from its arguments (mm.PageFromAddress(a + size - 1))
+		if x.Call.StaticCallee() != nil && !x.Call.IsInvoke() {
+			for _, a := range x.Call.Args {
+				if isIntegral(a.Type()) {
+					if s := unguardedSub(g, a, depth+1); s != nil {
+						return s
+					}
+				}
+			}
+		}
+		return nil
 	case *ssa.BinOp:
 		if x.Op == token.SUB {
 			if bt, ok := x.Type().Underlying().(*types.Basic); ok && bt.Info()&types.IsUnsigned != 0 {
@@ -856,6 +877,23 @@ func unguardedSub(g *IG, v ssa.Value, depth int) *ssa.BinOp {
 								cmpMatch(f, token.GTR, func(a ssa.Value) bool { return a == x.X }, func(b ssa.Value) bool { c, ok := constUint64(b); return ok && c+1 >= k }) ||
 								k == 1 && cmpMatch(f, token.NEQ, func(a ssa.Value) bool { return a == x.X }, isZeroConst) {
 								guarded = true
+							}
+						}
+					}
+				}
+				if sum, ok := stripConv(x.X).(*ssa.BinOp); ok && sum.Op == token.ADD && !guarded {
+					if n, ok := g.Idx[x]; ok {
+						if k, isK := constUint64(x.Y); isK {
+							for _, f := range g.FactsAt(n) {
+								for _, t := range []ssa.Value{sum.X, sum.Y} {
+									t := t
+									is := func(a ssa.Value) bool { return a == t || stripConv(a) == stripConv(t) }
+									if cmpMatch(f, token.GEQ, is, func(b ssa.Value) bool { c, ok := constUint64(b); return ok && c >= k }) ||
+										cmpMatch(f, token.GTR, is, func(b ssa.Value) bool { c, ok := constUint64(b); return ok && c+1 >= k }) ||
+										k == 1 && cmpMatch(f, token.NEQ, is, isZeroConst) {
+										guarded = true
+									}
+								}
 							}
 						}
 					}
